@@ -15,6 +15,7 @@ import Proofs.Toks
 import Proofs.TokCore
 import Proofs.ReplaceToks
 import Proofs.Reinsert
+import Proofs.FlatInsertCore
 namespace PM
 
 /-! ### `close` never dies -/
@@ -841,27 +842,10 @@ theorem spineR_append_ne_nil (a : List Node) : ∀ ns : List Node, ns ≠ [] →
 
 theorem flatInsert_no_internal (S : Schema) (ins : List Node) (parent : Option TypeId) (level : List Node)
     (d idx : Nat) (hd : d ≤ fsize level) : flatInsert S ins parent level d idx ≠ .error .internal := by
-  have go : (match fcut level 0 d, fcut level d (fsize level) with
-      | .ok l, .ok r => (.ok (some (fappend (fappend l ins) r)) : Res (Option (List Node)))
-      | .error e, _ => .error e
-      | _, .error e => .error e) ≠ .error .internal := by
-    intro hc
-    split at hc
-    · simp at hc
-    · rename_i e he
-      simp at hc; subst hc
-      exact fcut_no_internal level 0 d hd he
-    · rename_i e he _
-      simp at hc; subst hc
-      exact fcut_no_internal level d (fsize level) (Nat.le_refl _) he
-  unfold flatInsert
-  simp only
-  split
-  · exact go
-  · split
-    · simp
-    · exact go
-    · simp
+  intro h
+  rcases flatInsert_error h with he | he
+  · exact fcut_no_internal level 0 d hd he
+  · exact fcut_no_internal level d (fsize level) (Nat.le_refl _) he
 
 theorem insertInto_no_internal (S : Schema) (ins : List Node) :
     ∀ (rest : List Node) (parent : Option TypeId) (level : List Node) (d0 idx d oa ob : Nat),
@@ -896,28 +880,8 @@ theorem insertInto_no_internal (S : Schema) (ins : List Node) :
 theorem flatInsert_inv {S : Schema} {ins : List Node} {parent : Option TypeId} {level : List Node}
     {d idx : Nat} {c : List Node} (h : flatInsert S ins parent level d idx = .ok (some c)) :
     ∃ l r, fcut level 0 d = .ok l ∧ fcut level d (fsize level) = .ok r ∧
-      c = fappend (fappend l ins) r := by
-  have go : (match fcut level 0 d, fcut level d (fsize level) with
-      | .ok l, .ok r => (.ok (some (fappend (fappend l ins) r)) : Res (Option (List Node)))
-      | .error e, _ => .error e
-      | _, .error e => .error e) = .ok (some c) →
-      ∃ l r, fcut level 0 d = .ok l ∧ fcut level d (fsize level) = .ok r ∧
-        c = fappend (fappend l ins) r := by
-    intro hc
-    split at hc
-    · rename_i l r hl hr
-      simp at hc
-      exact ⟨l, r, hl, hr, hc.symm⟩
-    · simp at hc
-    · simp at hc
-  unfold flatInsert at h
-  simp only at h
-  split at h
-  · exact go h
-  · split at h
-    · simp at h
-    · exact go h
-    · simp at h
+      c = fappend (fappend l ins) r :=
+  flatInsert_ok_cuts h
 
 /-- inserting at a flat position to the right of the first `k` spine tokens keeps the left spine -/
 theorem flatInsert_spineL {S : Schema} {ins : List Node} {parent : Option TypeId} {level : List Node}
@@ -1057,19 +1021,14 @@ theorem insertInto_spine (S : Schema) (ins : List Node) :
 theorem insertAt_no_internal (S : Schema) (sl : Slice) (pos : Nat) (frag : List Node) :
     sl.insertAt S pos frag ≠ .error .internal := by
   intro h
-  unfold Slice.insertAt at h
-  split at h
-  · simp at h
-  · simp at h
-  · rename_i e he
-    simp at h; subst h
-    exact insertInto_no_internal S frag sl.content none sl.content _ 0 _ _ _ (by omega) he
+  exact insertInto_no_internal S frag sl.content none sl.content _ 0 _ _ _ (by omega) (insertAt_error h)
 
 /-- **insert_at keeps well-formedness**: the insertion point lies between the two spines -/
 theorem insertAt_wf (S : Schema) (sl ins : Slice) (pos : Nat) (frag : List Node)
     (hwf : sl.wf = true) (hp : (pos : Int) ≤ sl.size)
     (h : sl.insertAt S pos frag = .ok (some ins)) : ins.wf = true := by
-  unfold Slice.insertAt at h
+  rw [insertAt_of_le (insertAt_ok h).1] at h
+  unfold Slice.insertAtIn at h
   split at h
   · rename_i c hc
     simp at h; subst h
